@@ -15,6 +15,7 @@ import (
 	"google.golang.org/protobuf/proto"
 
 	"verif/internal/drive"
+	"verif/internal/ev"
 )
 
 // PrimCfg is the part of replication.PrimaryConfig a case varies.
@@ -85,6 +86,7 @@ type history struct {
 	pushes    map[int][]*rp.WALStreamResponse // write operation index -> what the primary pushed while it ran
 	server    *replication.Primary            // serves polls / resends / initial entries
 	nWrite    int
+	pc        PrimCfg
 	flushes   int
 	stoppedAt int // step at which a write reported an error (-1 = none)
 }
@@ -116,14 +118,13 @@ func buildHistory(p *drive.Program, pc PrimCfg, rc ReplCfg) (*history, error) {
 	if err != nil {
 		return nil, err
 	}
-	h := &history{dir: dir, stoppedAt: -1}
+	h := &history{dir: dir, stoppedAt: -1, pc: pc}
 	r, mm := drive.NewRunner(dir, p)
 	if mm != nil {
 		h.close()
 		return nil, fmt.Errorf("open primary engine: %v", mm)
 	}
 	h.run = r
-	r.NoQuiesce = true // the log is what matters here; the background flush of the primary may run freely
 	w := r.Eng.GetWAL()
 	if w == nil {
 		h.close()
@@ -219,6 +220,21 @@ func buildHistory(p *drive.Program, pc PrimCfg, rc ReplCfg) (*history, error) {
 }
 
 // poll returns what the primary sends to a replica asking from `from`.
+// The engine's background flush may rotate the log at any time; a Primary stays
+// bound to the log object it was created on and then only reports "WAL is
+// closed" (a liveness matter, C14). The harness then does what a restart of
+// the primary does: it creates a new Primary on the engine's current log.
 func (h *history) poll(from uint64) ([]*wal.Entry, error) {
-	return h.server.VerifEntriesFrom(from)
+	ents, err := h.server.VerifEntriesFrom(from)
+	if err != nil {
+		ev.R().Count("serving_primary_rebound_after_rotation", 1)
+		_ = h.server.Close()
+		srv, err2 := replication.NewPrimary(h.run.Eng.GetWAL(), primaryConfig(h.pc))
+		if err2 != nil {
+			return nil, err2
+		}
+		h.server = srv
+		ents, err = h.server.VerifEntriesFrom(from)
+	}
+	return ents, err
 }
